@@ -217,7 +217,7 @@ def cases(tier):
 
     def add(shape, nglyphs=6000, runs=None, **kw):
         c = {"kind": "gen", "shape": shape, "label": "gen:" + shape + kw.pop("suffix", ""), "nglyphs": nglyphs, "runs": runs or allmodes,
-             "budget": 45, "per_lookup": 90, "max_shape": 160}
+             "budget": 150, "per_lookup": 60, "max_shape": 70}
         c.update(kw)
         out.append(c)
 
@@ -230,15 +230,15 @@ def cases(tier):
     add("gsub-chain-contexts")
     add("gpos-pair-glyphs")
     levels = [0, 1, 5, 9] if tier == "quick" else list(range(10))
-    add("gpos-pair-classes", runs=[(m, l) for l in levels for m in ("F", "N", "T")][: 12 if tier == "quick" else 30], budget=80)
-    add("gpos-pair-classes", suffix=":sparse", sparse=3, k1=90, factor=0.55, runs=[("N", l) for l in range(10)], budget=80)
+    add("gpos-pair-classes", runs=[(m, l) for l in levels for m in ("F", "N", "T")][: 12 if tier == "quick" else 30], budget=240)
+    add("gpos-pair-classes", suffix=":sparse", sparse=3, k1=90, factor=0.55, runs=[("N", l) for l in range(10)], budget=240)
     add("gpos-mark-base")
     add("gpos-single", nglyphs=10000)
     add("gpos-many-lookups")
-    add("gsub-single-unpackable", nglyphs=33400, full=False, packable=False, budget=90)
+    add("gsub-single-unpackable", nglyphs=33400, full=False, packable=False, budget=150)
     # the candidate defect (DESIGN 7.6): run LAST and alone per mode, with a short budget
     add("gsub-ligature-one-set", nglyphs=12000, runs=[("N", 0), ("T", 0)], suffix=":hb")
-    add("gsub-ligature-one-set", nglyphs=12000, runs=[("F", 0)], budget=20, suffix=":off", label_key="LigatureSubst-single-LigatureSet>64k")
+    add("gsub-ligature-one-set", nglyphs=12000, runs=[("F", 0)], budget=150, suffix=":off", label_key="LigatureSubst-single-LigatureSet>64k")
     if tier == "thorough":
         add("gsub-ligatures", factor=2.6, suffix=":x2")
         add("gpos-pair-glyphs", factor=2.4, suffix=":x2")
